@@ -340,11 +340,16 @@ pub fn run_hist<'p>(
 ) -> String {
     let mut s: Sentence<'static, 'p> = Sentence::default();
     let mut last_pred: Option<usize> = None;
+    let mut filled = false;
     let mut out: Vec<String> = vec![];
     let c05 = oracle == "c05";
     let default_obs = if c05 { obs(&Sentence::default()) } else { String::new() };
     for op in ops.split(',') {
         let f: Vec<&str> = op.split(':').collect();
+        if matches!(f[0], "new" | "raw" | "tok" | "part" | "Fraw" | "Ftok" | "Fpart" | "reset" | "sett") {
+            last_pred = None;
+            filled = false;
+        }
         let r: String = match f.as_slice() {
             ["obs"] | ["obs", _] => {
                 let o = obs_sel(&s, f.get(1).copied().unwrap_or(""));
@@ -430,19 +435,40 @@ pub fn run_hist<'p>(
                 match catch(|| p.predict(&mut s)) {
                     Ok(()) => {
                         last_pred = Some(k);
+                        filled = false;
                         "ok".into()
                     }
                     Err(_) => "panic".into(),
                 }
             }
             ["fill"] => match catch(|| s.fill_tags()) {
-                Ok(()) => "ok".into(),
+                Ok(()) => {
+                    filled = true;
+                    "ok".into()
+                }
                 Err(_) => "panic".into(),
             },
             ["spec", k] => {
                 let Ok(k) = k.parse::<usize>() else { return "bad-op".into() };
                 let Some(m) = models.get(k) else { return "bad-op".into() };
                 format!("Z{}", m.spec_scores(s.as_raw_text()).iter().map(|x| x.to_string()).collect::<Vec<_>>().join("."))
+            }
+            ["tspec", k] => {
+                let Ok(k) = k.parse::<usize>() else { return "bad-op".into() };
+                let Some(m) = models.get(k) else { return "bad-op".into() };
+                let items: Vec<String> = spec_spans(s.boundaries())
+                    .iter()
+                    .map(|&(st, en)| {
+                        let (row, scores) = m.tag_spec(s.as_raw_text(), st, en);
+                        format!(
+                            "{}={}={}",
+                            en,
+                            row.iter().map(|t| t.as_ref().map_or("~".to_string(), |t| hexs(t))).collect::<Vec<_>>().join("+"),
+                            scores.iter().map(|x| x.to_string()).collect::<Vec<_>>().join(":")
+                        )
+                    })
+                    .collect();
+                format!("X{}", items.join("."))
             }
             ["reset", k] => {
                 let Ok(k) = k.parse::<usize>() else { return "bad-op".into() };
@@ -502,6 +528,11 @@ pub fn run_hist<'p>(
         "c01" => {
             if let Some(k) = last_pred {
                 crate::pred::oracle_c01(&s, &models[k], fails);
+            }
+        }
+        "c06" => {
+            if let (Some(k), true) = (last_pred, filled) {
+                crate::pred::oracle_c06(&s, &models[k], fails);
             }
         }
         "c02" => oracle_c02(&s, fails),
